@@ -47,7 +47,7 @@ def gen_knn_case(rng, tier, *, model=None, metrics=None, max_n=None, gclasses=No
             Q[t] = X[int(rng.integers(0, n))]
     case = {"model": model, "metric": metric, "gclass": gc, "pattern": pattern, "X": X.tolist(), "Y": Y.tolist(),
             "V": V.tolist(), "YV": [int(v) for v in YV], "Q": Q.tolist(), "min_k": min_k, "max_k": max_k, "pre": None,
-            "refit": bool(rng.random() < 0.15)}
+            "refit": bool(rng.random() < 0.15), "kwcall": bool(rng.random() < 0.2)}
     if allow_pre and rng.random() < 0.25:
         # pre-computed distances.  unsupervised: N x N matrix of a larger dataset, shuffled training subset, queries anywhere.
         # KNN-supervised demands an n_train x n_train matrix: training = a permutation of 0..n-1, validation/query indices inside it.
@@ -123,6 +123,12 @@ def fit_model(case, m=None, before_final=None):
             X, Y = X0, Y0
     if before_final is not None:
         before_final()
+    if case.get("kwcall"):
+        Xa, Ya = (X if case.get("refit") else X.copy()), (Y if case.get("refit") else Y.copy())
+        if case["model"] == "knn":
+            IV = np.array(pre["IV"], dtype=int) if pre else None
+            return m, safe_call(m.fit, X_train=Xa, Y_train=Ya, X_val=V.copy(), Y_val=YV.copy(), I_train=I, I_val=IV)
+        return m, safe_call(m.fit, X_train=Xa, Y_train=Ya, I_train=I)
     if case["model"] == "knn":
         IV = np.array(pre["IV"], dtype=int) if pre else None
         return m, safe_call(m.fit, X if case.get("refit") else X.copy(), Y if case.get("refit") else Y.copy(), V.copy(), YV.copy(), I, IV)
